@@ -1031,4 +1031,40 @@ Lemma pnames_subst_explicit Δ Γ rs s f old :
   chan old = None -> Γ !! ident old = None -> typed Δ Γ None rs s f ->
   pnames None (subst old (new_self "") f) = pnames None f /\ (affr None f -> affr None (subst old (new_self "") f)).
 Proof. intros Ho Hfr H. exact (proj1 (pnames_subst_prov_mut Δ old (ident old) Ho eq_refl) _ _ _ _ _ H Hfr). Qed.
+
+(* ------------------------------------------------------------------ the channels of a typed term are typed *)
+Lemma client_chan_typed Δ Γ sh n t k : client_ty Δ Γ sh n t -> In k (name_chans n) -> is_Some (Δ !! k).
+Proof.
+  intros [_ [_ H]]. unfold name_chans. destruct (chan n) as [c|]; [|intros []]. intros [<-|[]].
+  destruct H as [t' [H _]]. eauto.
+Qed.
+Lemma prov_no_chan sh rs n k : prov_name sh rs n -> ~ In k (name_chans n).
+Proof. intros [H _]. unfold name_chans. rewrite H. auto. Qed.
+Lemma args_chan_typed Δ Γ sh args ps k : args_ok teq Δ Γ sh args ps -> In k (flat_map name_chans args) -> is_Some (Δ !! k).
+Proof.
+  intros H. induction H as [|a p args ps [t [_ H1]] H IH]; simpl; [tauto|].
+  rewrite in_app_iff. intros [Hz|Hz]; eauto using client_chan_typed.
+Qed.
+
+Lemma form_chans_typed_mut Δ :
+  (forall Γ sh rs s f, typed Δ Γ sh rs s f -> forall k, In k (form_chans f) -> is_Some (Δ !! k)) /\
+  (forall Γ rs bs b, typed_brs_p Δ Γ rs bs b -> forall k, In k (brs_chans b) -> is_Some (Δ !! k)) /\
+  (forall Γ sh rs s bs b, typed_brs_c Δ Γ sh rs s bs b -> forall k, In k (brs_chans b) -> is_Some (Δ !! k)).
+Proof.
+  apply typed_mutind; simpl; intros;
+    repeat match goal with
+           | H : In _ (_ ++ _) |- _ => apply in_app_iff in H as [H|H]
+           | H : In _ [] |- _ => destruct H
+           | Hp : prov_name _ _ ?n, H : In _ (name_chans ?n) |- _ => destruct (prov_no_chan _ _ _ _ Hp H)
+           | Hc : client_ty _ _ _ ?n _, H : In _ (name_chans ?n) |- _ => exact (client_chan_typed _ _ _ _ _ _ Hc H)
+           end; eauto.
+  - (* Call *)
+    match goal with H : _ \/ _ |- _ => destruct H as [[Hl Ha]|[a0 [rest [-> [Hl [Hp Ha]]]]]] end; [eauto using args_chan_typed|].
+    match goal with Hin : In _ (flat_map _ (_ :: _)) |- _ => simpl in Hin; apply in_app_iff in Hin as [Hin|Hin];
+      [destruct (prov_no_chan _ _ _ _ Hp Hin)|eauto using args_chan_typed] end.
+  - contradiction.
+  - contradiction.
+Qed.
+Lemma form_chans_typed Δ Γ sh rs s f k : typed Δ Γ sh rs s f -> In k (form_chans f) -> is_Some (Δ !! k).
+Proof. intros H. eapply (proj1 (form_chans_typed_mut Δ)); eauto. Qed.
 End Paths.
